@@ -78,6 +78,14 @@ Proof.
   intros H. apply forallb_forall. intros t Ht. rewrite forallb_forall in H. apply type_tok_clause. apply H. exact Ht.
 Qed.
 
+Lemma word_tok_nb t : word_tok t = true -> nb t.
+Proof. unfold word_tok. intros H. apply orb_prop in H as [H|H]; [apply name_nb | apply keyword_nb]; exact H. Qed.
+
+Lemma words_brace_free ws : forallb word_tok ws = true -> brace_free ws.
+Proof.
+  intros H. apply Forall_forall. intros t Ht. rewrite forallb_forall in H. apply word_tok_nb. apply H. exact Ht.
+Qed.
+
 Lemma prefix_word_tok l t : prefix_word l t = true -> prefix_tok t = true.
 Proof. unfold prefix_word. intros H. do 5 (apply andb_prop in H as [H _]). exact H. Qed.
 
@@ -133,16 +141,17 @@ Proof. intros (body & semi & -> & _ & _). destruct body; discriminate. Qed.
 Theorem items_of_balanced l off ts ds : items_of l off ts ds -> balanced ts.
 Proof.
   induction 1 as [off|off s r ds Hs Hr IH
-                 |off kw cond o body c r ds1 ds2 Hkw Hcond Hnt Ho Hc Hb IHb Hr IHr
+                 |off kw words cond o body c r ds1 ds2 Hkw Hwords Hcond Hnt Ho Hc Hb IHb Hr IHr
                  |off pre hd nm_off hend_off o body c r ds1 ds2 Hpre Hhd Ho Hc Hb IHb Hflat Hr IHr].
   - apply balanced_nil.
   - apply balanced_app; [|exact IH]. apply brace_free_balanced, simple_stmt_brace_free, Hs.
-  - replace (kw :: cond ++ o :: body ++ c :: r) with ([kw] ++ cond ++ (o :: body ++ [c]) ++ r)
+  - replace (kw :: words ++ cond ++ o :: body ++ c :: r) with ([kw] ++ words ++ cond ++ (o :: body ++ [c]) ++ r)
       by (norm_app; reflexivity).
     destruct (keyword_nb kw Hkw) as [K3 K4].
     apply balanced_app; [apply balanced_single; assumption|].
+    apply balanced_app; [apply brace_free_balanced, words_brace_free, Hwords|].
     apply balanced_app.
-    + destruct Hcond as [->|Hg]; [apply balanced_nil|]. apply brace_free_balanced, groups_brace_free, Hg.
+    + destruct Hcond as [->|[Hg _]]; [apply balanced_nil|]. apply brace_free_balanced, groups_brace_free, Hg.
     + apply balanced_app; [|exact IHr]. apply balanced_block; assumption.
   - replace (pre ++ hd ++ o :: body ++ c :: r) with (pre ++ hd ++ (o :: body ++ [c]) ++ r)
       by (norm_app; reflexivity).
@@ -155,7 +164,7 @@ Qed.
 Lemma items_of_head_not_lbrace l off ts ds : items_of l off ts ds -> hd_ok nlb ts.
 Proof.
   destruct 1 as [off|off s r ds Hs Hr
-                |off kw cond o body c r ds1 ds2 Hkw Hcond Hnt Ho Hc Hb Hr
+                |off kw words cond o body c r ds1 ds2 Hkw Hwords Hcond Hnt Ho Hc Hb Hr
                 |off pre hd nm_off hend_off o body c r ds1 ds2 Hpre Hhd Ho Hc Hb Hflat Hr].
   - exact I.
   - apply brace_free_hd_nlb; [apply simple_stmt_brace_free; exact Hs | apply simple_stmt_nonempty; exact Hs].
@@ -171,7 +180,7 @@ Theorem items_of_shape l off ts ds : items_of l off ts ds ->
   forall pre post, length pre = off -> hd_ok nlb post -> Forall (shapeP (pre ++ ts ++ post)) ds.
 Proof.
   induction 1 as [off|off s r ds Hs Hr IH
-                 |off kw cond o body c r ds1 ds2 Hkw Hcond Hnt Ho Hc Hb IHb Hr IHr
+                 |off kw words cond o body c r ds1 ds2 Hkw Hwords Hcond Hnt Ho Hc Hb IHb Hr IHr
                  |off pre0 hd nm_off hend_off o body c r ds1 ds2 Hpre Hhd Ho Hc Hb IHb Hflat Hr IHr];
     intros pre post Hlen Hpost.
   - constructor.
@@ -180,11 +189,11 @@ Proof.
   - assert (Hcpost : hd_ok nlb (c :: r ++ post)).
     { cbn [hd_ok]. unfold nlb. rewrite (rbrace_not_lbrace _ Hc). reflexivity. }
     apply Forall_app. split.
-    + replace (pre ++ (kw :: cond ++ o :: body ++ c :: r) ++ post)
-        with ((pre ++ kw :: cond ++ [o]) ++ body ++ (c :: r ++ post)) by (norm_app; reflexivity).
+    + replace (pre ++ (kw :: words ++ cond ++ o :: body ++ c :: r) ++ post)
+        with ((pre ++ kw :: words ++ cond ++ [o]) ++ body ++ (c :: r ++ post)) by (norm_app; reflexivity).
       apply IHb; [norm_len; lia | exact Hcpost].
-    + replace (pre ++ (kw :: cond ++ o :: body ++ c :: r) ++ post)
-        with ((pre ++ kw :: cond ++ o :: body ++ [c]) ++ r ++ post) by (norm_app; reflexivity).
+    + replace (pre ++ (kw :: words ++ cond ++ o :: body ++ c :: r) ++ post)
+        with ((pre ++ kw :: words ++ cond ++ o :: body ++ [c]) ++ r ++ post) by (norm_app; reflexivity).
       apply IHr; [norm_len; lia | exact Hpost].
   - assert (Hcpost : hd_ok nlb (c :: r ++ post)).
     { cbn [hd_ok]. unfold nlb. rewrite (rbrace_not_lbrace _ Hc). reflexivity. }
@@ -227,7 +236,7 @@ Theorem items_of_order l off ts ds : items_of l off ts ds ->
   Forall (within_of off (off + length ts)) ds /\ StronglySorted ord ds.
 Proof.
   induction 1 as [off|off s r ds Hs Hr IH
-                 |off kw cond o body c r ds1 ds2 Hkw Hcond Hnt Ho Hc Hb IHb Hr IHr
+                 |off kw words cond o body c r ds1 ds2 Hkw Hwords Hcond Hnt Ho Hc Hb IHb Hr IHr
                  |off pre0 hd nm_off hend_off o body c r ds1 ds2 Hpre Hhd Ho Hc Hb IHb Hflat Hr IHr].
   - split; constructor.
   - destruct IH as [I1 I2]. split; [|exact I2].
@@ -257,7 +266,7 @@ Theorem items_of_flat_order l off ts ds : lang_nested l = false -> items_of l of
 Proof.
   intros Hl.
   induction 1 as [off|off s r ds Hs Hr IH
-                 |off kw cond o body c r ds1 ds2 Hkw Hcond Hnt Ho Hc Hb IHb Hr IHr
+                 |off kw words cond o body c r ds1 ds2 Hkw Hwords Hcond Hnt Ho Hc Hb IHb Hr IHr
                  |off pre0 hd nm_off hend_off o body c r ds1 ds2 Hpre Hhd Ho Hc Hb IHb Hflat Hr IHr].
   - constructor.
   - exact IH.
